@@ -280,7 +280,7 @@ func ruleCfgListen(c *Ctx, rule string) {
 			return
 		}
 		r0 := ex.Canon(st, ret.Results[0]).S
-		isDefault := regexp.MustCompile(`config\.` + an("defaultListen") + `(@(?:[\w$]+·)?t\d+)?\(\$1\)#0$`).MatchString(r0)
+		isDefault := regexp.MustCompile(`config(?:\.Config\))?\.` + an("defaultListen") + `(@(?:[\w$]+·)?t\d+)?\((?:\$0,)?\$1\)#0$`).MatchString(r0) // a function, or a method of the Config being parsed
 		switch {
 		case errN == 0 && both == 1 && !st.seen["gla"] && !st.seen["append"]:
 			nConflict++
